@@ -96,6 +96,10 @@ def _as_outcome(x):
         x = float(x)
     except (TypeError, ValueError):
         return ("not a number", repr(x))
+    if math.isinf(x):
+        # an undefined distance is reported as an invalid (nan) entry, which drop_invalid() removes; an infinite one
+        # is a number as far as drop_invalid() and the tree builders are concerned
+        return ("infinite", repr(x))
     return x if math.isfinite(x) else D.UNDEF
 
 
@@ -103,6 +107,10 @@ def make_aln(seqs, names, moltype, array_align):
     from cogent3 import make_aligned_seqs
 
     return make_aligned_seqs(dict(zip(names, seqs)), moltype=moltype, array_align=array_align)
+
+
+class _NoSuchForm(Exception):
+    """this estimator cannot be asked for in this argument form (documented refusal at construction)"""
 
 
 def observe(aln, names, moltype, est, entry):
@@ -129,6 +137,21 @@ def observe(aln, names, moltype, est, entry):
         key = (cname, moltype)
         if key not in _APPS:
             _APPS[key] = get_app("fast_slow_dist", fast_calc=cname, moltype=moltype)
+        dm = _APPS[key](aln)
+        if not hasattr(dm, "array"):
+            return None, [("app returned " + type(dm).__name__, str(dm)[:200], None)]
+    elif entry in ("app_fast_only", "app_distance"):
+        # the same app built without a moltype: the alignment's own letters still decide what a canonical column is
+        key = (cname, entry)
+        if key not in _APPS:
+            try:
+                _APPS[key] = get_app("fast_slow_dist", **{"fast_calc" if entry == "app_fast_only" else "distance": cname})
+            except ValueError as e:
+                _APPS[key] = str(e)
+        if isinstance(_APPS[key], str):
+            if "must provide a moltype" in _APPS[key]:
+                raise _NoSuchForm
+            raise ValueError(_APPS[key])
         dm = _APPS[key](aln)
         if not hasattr(dm, "array"):
             return None, [("app returned " + type(dm).__name__, str(dm)[:200], None)]
@@ -180,6 +203,8 @@ def check_seqs(seqs, moltype, array_align, ests, entries, acc, part):
             acc.case((part, seqs, moltype, array_align, est, entry), nontrivial=nontrivial)
             try:
                 got, probs = observe(aln, names, moltype, est, entry)
+            except _NoSuchForm:
+                continue
             except Exception as e:  # noqa: BLE001
                 acc.fail(f"{est} via {entry}: raised {type(e).__name__}", dict(case, est=est, entry=entry),
                          {"error": str(e)[:300]})
@@ -223,6 +248,8 @@ def check_seqs(seqs, moltype, array_align, ests, entries, acc, part):
                            "[some pair is identical only up to non-canonical characters]")
                 elif g1 == D.UNDEF:
                     sig = f"{est} via {entry}: no value where the closed form is defined"
+                elif isinstance(g1, tuple) and g1[0] == "infinite":
+                    sig = f"{est} via {entry}: infinite entry instead of an invalid one"
                 elif D.UNDEF in want and len(want) == 1:
                     fam = "paralinear/logdet" if est in ("paralinear", "logdet", "logdet_classic") else est
                     sig = (f"{fam} via {entry}: finite value where the closed form is undefined "
@@ -246,6 +273,7 @@ def check_seqs(seqs, moltype, array_align, ests, entries, acc, part):
 NUC_ESTS = D.ESTIMATORS
 ENTRIES_ALL = ("calculator", "distance_matrix", "drop_invalid", "app")
 ENTRIES_MAIN = ("calculator", "distance_matrix")
+ENTRIES_RNA = ("calculator", "distance_matrix", "app", "app_fast_only", "app_distance")
 
 
 def realise(flat, base, letters):
@@ -265,7 +293,7 @@ def run_est(spec, acc):
             continue
         check_seqs(seqs, "dna", True, NUC_ESTS, ENTRIES_ALL if variants else ENTRIES_MAIN, acc, "matrix")
         if variants:
-            check_seqs(realise(flat, b, "ACGU"), "rna", True, NUC_ESTS, ENTRIES_MAIN, acc, "matrix")
+            check_seqs(realise(flat, b, "ACGU"), "rna", True, NUC_ESTS, ENTRIES_RNA, acc, "matrix")
             check_seqs(seqs, "dna", False, NUC_ESTS, ENTRIES_MAIN, acc, "matrix")
         done += 1
         if done == 3:
